@@ -88,6 +88,21 @@ pub(crate) mod verif_u {
         ep.state == ProtocolState::Disconnected
     }
 
+    /// fills the whole time-sync window with one (local, remote) advantage pair
+    pub(crate) fn fill_advantage<T: Config>(ep: &mut UdpProtocol<T>, local: i32, remote: i32) {
+        let mut f = 0;
+        while f < 30 {
+            ep.time_sync_layer.advance_frame(f, local, remote);
+            f += 1;
+        }
+    }
+    pub(crate) fn push_checksum<T: Config>(ep: &mut UdpProtocol<T>, frame: Frame, checksum: u128) {
+        ep.pending_checksums.insert(frame, checksum);
+    }
+    pub(crate) fn has_checksum<T: Config>(ep: &UdpProtocol<T>, frame: Frame) -> bool {
+        ep.pending_checksums.contains_key(&frame)
+    }
+
     fn msg(magic: u16, body: MessageBody) -> Message {
         Message { header: MessageHeader { magic }, body }
     }
@@ -301,6 +316,35 @@ pub(crate) mod verif_u {
             assert!(ep.event_queue.is_empty());
         }
         kani::cover!(n0, "resumed");
+        core::mem::forget(m);
+        core::mem::forget(ep);
+    }
+
+    /// After the endpoint has left the Running state (disconnected, waiting for shutdown) a late
+    /// packet from the peer raises no NetworkResumed: nothing follows Disconnected for that address.
+    #[kani::proof]
+    #[kani::unwind(6)]
+    #[kani::stub(crate::network::protocol::millis_since_epoch, stub_millis)]
+    #[kani::stub(crate::network::compression::decode, crate::verif_common::stub_decode_err)]
+    #[kani::stub(alloc::fmt::format, crate::verif_common::stub_format)]
+    fn u_no_resume_after_disconnect() {
+        instant::set_now_ms(50_000);
+        let mut ep = mk_ep::<CfgRL>(vec![1], 2, 1, 2, true);
+        ep.disconnect_notify_sent = true;
+        ep.disconnect_event_sent = true;
+        ep.disconnect();
+        assert!(ep.state == ProtocolState::Disconnected);
+        let m = msg(MAGIC_REMOTE, MessageBody::KeepAlive);
+        ep.handle_message(&m);
+        assert!(ep.event_queue.is_empty(), "no lifecycle event after Disconnected");
+        // and the poll of a disconnected endpoint raises nothing either
+        let cs = [ConnectionStatus::default(); 2];
+        {
+            let mut d = ep.poll(&cs);
+            assert!(d.next().is_none());
+            core::mem::forget(d);
+        }
+        kani::cover!(true, "reached");
         core::mem::forget(m);
         core::mem::forget(ep);
     }
